@@ -417,17 +417,22 @@ namespace AIToolbox::MDP {
         if (!isProbability(S, A, S, t))
             throw std::invalid_argument("Input transition matrix does not contain valid probabilities.");
 
-        // Then we copy.
+        // We build the new function on the side: small entries are dropped,
+        // so we verify that what we are going to store is still a
+        // probability before touching the model.
+        TransitionMatrix newT(A, SparseMatrix2D(S, S));
         for ( size_t a = 0; a < A; ++a ) {
-            transitions_[a].setZero();
-
             for ( size_t s = 0; s < S; ++s )
             for ( size_t s1 = 0; s1 < S; ++s1 ) {
                 const double p = t[s][a][s1];
-                if ( checkDifferentSmall(0.0, p) ) transitions_[a].insert(s, s1) = p;
+                if ( checkDifferentSmall(0.0, p) ) newT[a].insert(s, s1) = p;
             }
-            transitions_[a].makeCompressed();
+            newT[a].makeCompressed();
         }
+        if (!isProbability(newT))
+            throw std::invalid_argument("Input transition matrix does not contain valid probabilities.");
+
+        transitions_ = std::move(newT);
     }
 
     template <IsNaive3DMatrix R>
